@@ -13,7 +13,7 @@ from .appnamespace import cardarr_axiom, hp
 
 EXPIRE_MOD = PAA_MOD + [UCUR]
 c = contract("server_tap.makeService.<locals>.expire", cls=None, params={}, modifies=EXPIRE_MOD,
-             tags=["C09", "C10", "C12", "C13", "C15", "C17"])
+             tags=["C01", "C03", "C05", "C07", "C08", "C09", "C10", "C11", "C12", "C13", "C15", "C17", "C18"])
 c.free = {"server": "the_server", "rebooted": "real"}
 # an exception escaping `expire` stops the TimerService: that is about the sweeps continuing (C13) and about a
 # restarted server completing its sweeps (C10), not about what a sweep that does run deletes or answers
@@ -41,10 +41,15 @@ def _(c):
     S0, S1 = c.pre, c.post
     args = c.ghost("Server.prune_all_apps@args")
     E = module_consts()["CHANNEL_EXPIRATION_TIME"]
+    # every timer tick attempts the sweep (no guard that depends on in-memory state such as the start time)
+    yield "sweep_attempted", BoolVal(args is not None), ["C13", "C10", "C11"]
     if args is not None:
         now, old = to_term(args["now"], "real"), to_term(args["old"], "real")
         # C12: the sweep is asked to delete what was idle for the whole expiration time, measured from one clock read
         yield "cutoff", old == now - RealVal(E), ["C12", "C13"]
+        clk = c.ghost("time.time@first")
+        # ... and `now` is that clock read itself (not rounded, shifted or taken from configuration)
+        yield "now_is_the_clock_read", BoolVal(False) if clk is None else (now == clk), ["C12", "C13", "C18", "C11"]
         dargs = c.ghost("Server.dump_stats@args")
         if dargs is not None:
             yield "stats_use_same_clock_read", to_term(dargs["now"], "real") == now, ["C15"]
@@ -59,7 +64,7 @@ def _(c):
         args = c.ghost("Server.prune_all_apps@args")
         old = to_term(args["old"], "real")
         for n, t in protected_kept(S0, S1, old):
-            yield "protected_kept." + n, t, ["C12"]
+            yield "protected_kept." + n, t, ["C12", "C01", "C03", "C05", "C07", "C08"]
         yield "all_remaining_fresh", S1.t(MB).forall(lambda r: r.updated > old), ["C13"]
         from .server import sub_row
         mb0, mb1 = S0.t(MB), S1.t(MB)
